@@ -62,6 +62,13 @@ type lkPkg struct {
 	pkg   *types.Package
 }
 
+// one file set and one source importer for every package this command type-checks: the dependencies (go/types, go/ast,
+// gogrep, ...) are type-checked once
+var (
+	lkFset = token.NewFileSet()
+	lkImp  types.Importer
+)
+
 func lkLoadPkg(repo, rel, path string) (*lkPkg, error) {
 	dir := filepath.Join(repo, rel)
 	ents, err := os.ReadDir(dir)
@@ -80,7 +87,7 @@ func lkLoadPkg(repo, rel, path string) (*lkPkg, error) {
 		build.Default.BuildTags = append(build.Default.BuildTags, "verif")
 	}
 	bctx := build.Default
-	fset := token.NewFileSet()
+	fset := lkFset
 	var files []*ast.File
 	for _, e := range ents {
 		n := e.Name()
@@ -113,8 +120,11 @@ func lkLoadPkg(repo, rel, path string) (*lkPkg, error) {
 		Types:      map[ast.Expr]types.TypeAndValue{},
 	}
 	var terrs []string
+	if lkImp == nil {
+		lkImp = importer.ForCompiler(fset, "source", nil)
+	}
 	conf := types.Config{
-		Importer: importer.ForCompiler(fset, "source", nil),
+		Importer: lkImp,
 		Error:    func(err error) { terrs = append(terrs, err.Error()) },
 	}
 	pkg, _ := conf.Check(path, fset, files, info)
@@ -1539,40 +1549,10 @@ func locksCmd(repo string, _ []string) (string, error) {
 	}
 	sb.WriteString("\n].\n\n")
 
-	// inventories and write-site scan
-	inv, err := lkInventory(p, []string{"engine", "engineState", "goImporter", "RunnerState", "rulesRunner", "filterParams", "RunContext", "Engine"})
-	if err != nil {
+	// inventories, write-site scan of every package that runs under Run, Load-time object graph (locks_loadtime.go)
+	if err := lkLoadtimeSection(repo, t, &sb); err != nil {
 		return "", err
 	}
-	q, err := lkLoadPkg(repo, "ruleguard/quasigo", "github.com/quasilyte/go-ruleguard/ruleguard/quasigo")
-	if err != nil {
-		return "", err
-	}
-	inv2, err := lkInventory(q, []string{"Env", "EvalEnv", "ValueStack", "Func"})
-	if err != nil {
-		return "", err
-	}
-	sb.WriteString("(* struct field inventories: (struct, [(field, type)]) *)\nDefinition gen_structs : list (string * list (string * string)) := [\n")
-	sb.WriteString(strings.Join(append(inv, inv2...), ";\n"))
-	sb.WriteString("\n].\n\n")
-	w1, v1, err := t.writeScan(p, "", []string{"(*engine).Run"}, lkLoadRootList())
-	if err != nil {
-		return "", err
-	}
-	t2 := &lkTr{p: q, fieldIdx: map[*types.Var]int{}, mutexIdx: map[*types.Var]int{}, escapes: map[string]bool{}}
-	t2.collectFuncs()
-	t2.analyseFuncs()
-	w2, v2, err := t2.writeScan(q, "quasigo.", []string{"Call", "(*Env).GetEvalEnv", "(*Env).UpdateEvalEnv"},
-		[]string{"Compile", "NewEnv", "(*Env).AddNativeMethod", "(*Env).AddNativeFunc", "(*Env).AddFunc", "(*Env).RemoveFunc", "Disasm"})
-	if err != nil {
-		return "", err
-	}
-	sb.WriteString("(* package-level variables: (name, type, functions that write them) *)\nDefinition gen_pkgvars : list (string * string * list string) := [\n")
-	sb.WriteString(strings.Join(append(v1, v2...), ";\n"))
-	sb.WriteString("\n].\n\n")
-	sb.WriteString("(* write sites outside the load-only functions: (function, owner struct (\"local\" = a value that lives in the\n   function's own frame), field) *)\nDefinition gen_run_writes : list (string * string * string) := [\n")
-	sb.WriteString(strings.Join(append(w1, w2...), ";\n"))
-	sb.WriteString("\n].\n")
 	return sb.String(), nil
 }
 
@@ -1622,7 +1602,8 @@ func (t *lkTr) phaseLoadOnly(runRoots, loadRoots []string) map[string]bool {
 			}
 		}
 		// literals, function values and exported entry points outside the loading API may run at any time
-		if isRunRoot || f.lit != nil || f.valueRef || (f.exported && !loadReach[f]) {
+		// (instrumentation files -- build tag verif -- are not part of the shipped code: not roots)
+		if isRunRoot || ((f.lit != nil || f.valueRef || (f.exported && !loadReach[f])) && !f.hook) {
 			if !isLoadRoot[f.name] {
 				rs = append(rs, f)
 			}
@@ -1636,37 +1617,6 @@ func (t *lkTr) phaseLoadOnly(runRoots, loadRoots []string) map[string]bool {
 		}
 	}
 	return out
-}
-
-func lkInventory(p *lkPkg, names []string) ([]string, error) {
-	var out []string
-	qual := func(other *types.Package) string {
-		if other == p.pkg {
-			return ""
-		}
-		return other.Name()
-	}
-	for _, n := range names {
-		obj := p.pkg.Scope().Lookup(n)
-		if obj == nil {
-			return nil, fmt.Errorf("locks: struct %s.%s not found", p.pkg.Name(), n)
-		}
-		st, ok := obj.Type().Underlying().(*types.Struct)
-		if !ok {
-			return nil, fmt.Errorf("locks: %s is not a struct", n)
-		}
-		var fs []string
-		for i := 0; i < st.NumFields(); i++ {
-			f := st.Field(i)
-			fs = append(fs, fmt.Sprintf("(%s, %s)", lkStr(f.Name()), lkStr(types.TypeString(f.Type(), qual))))
-		}
-		name := n
-		if p.pkg.Name() != "ruleguard" {
-			name = p.pkg.Name() + "." + n
-		}
-		out = append(out, fmt.Sprintf("  (%s, [%s])", lkStr(name), strings.Join(fs, "; ")))
-	}
-	return out, nil
 }
 
 // owner of the memory written by an assignment to e: the named struct behind the last pointer dereference of the
@@ -1776,147 +1726,4 @@ func (t *lkTr) writeOwner(p *lkPkg, prefix string, e ast.Expr) (owner, field str
 		}
 	}
 	return "?", ""
-}
-
-func (t *lkTr) writeScan(p *lkPkg, prefix string, runRoots, loadRoots []string) (writes, vars []string, err error) {
-	loadOnly := t.phaseLoadOnly(runRoots, loadRoots)
-	for _, n := range runRoots {
-		found := false
-		for _, f := range t.funcs {
-			if f.name == n {
-				found = true
-			}
-		}
-		if !found {
-			return nil, nil, fmt.Errorf("locks: run root %s%s not found", prefix, n)
-		}
-	}
-	type wr struct{ fn, owner, field string }
-	set := map[wr]bool{}
-	varWriters := map[string]map[string]bool{}
-	for _, f := range t.funcs {
-		record := func(e ast.Expr) {
-			owner, field := t.writeOwner(p, prefix, e)
-			if strings.HasPrefix(owner, "pkgvar:") {
-				vn := strings.TrimPrefix(owner, "pkgvar:")
-				if varWriters[vn] == nil {
-					varWriters[vn] = map[string]bool{}
-				}
-				varWriters[vn][f.name] = true
-			}
-			if loadOnly[f.name] || f.hook {
-				return
-			}
-			if owner == "local" {
-				return
-			}
-			set[wr{prefix + f.name, owner, field}] = true
-		}
-		lkInspect(f.body, func(n ast.Node) bool {
-			switch n := n.(type) {
-			case *ast.AssignStmt:
-				for _, l := range n.Lhs {
-					if id, ok := l.(*ast.Ident); ok && (n.Tok == token.DEFINE || id.Name == "_") {
-						if _, isDef := p.info.Defs[id]; isDef || id.Name == "_" {
-							continue
-						}
-					}
-					record(l)
-				}
-			case *ast.IncDecStmt:
-				record(n.X)
-			case *ast.RangeStmt:
-				if n.Tok == token.ASSIGN {
-					if n.Key != nil {
-						record(n.Key)
-					}
-					if n.Value != nil {
-						record(n.Value)
-					}
-				}
-			case *ast.CallExpr:
-				if id, ok := n.Fun.(*ast.Ident); ok {
-					if _, isBuiltin := p.info.Uses[id].(*types.Builtin); isBuiltin {
-						switch id.Name {
-						case "delete", "clear", "copy":
-							if len(n.Args) > 0 {
-								// the argument itself is the container: treat as an element write
-								record(&ast.IndexExpr{X: n.Args[0]})
-							}
-						}
-					}
-				}
-			case *ast.UnaryExpr:
-				if n.Op == token.AND {
-					// &pkgvar / &pkgvar.f : the variable may be written through the pointer
-					root := n.X
-					for {
-						switch x := root.(type) {
-						case *ast.SelectorExpr:
-							if _, ok := p.info.Selections[x]; ok {
-								root = x.X
-								continue
-							}
-						case *ast.IndexExpr:
-							root = x.X
-							continue
-						case *ast.ParenExpr:
-							root = x.X
-							continue
-						}
-						break
-					}
-					if id, ok := root.(*ast.Ident); ok {
-						if v, ok := p.info.Uses[id].(*types.Var); ok && v.Parent() == p.pkg.Scope() {
-							if _, isStruct := v.Type().Underlying().(*types.Struct); isStruct || true {
-								if varWriters[prefix+v.Name()] == nil {
-									varWriters[prefix+v.Name()] = map[string]bool{}
-								}
-								varWriters[prefix+v.Name()]["&"+f.name] = true
-							}
-						}
-					}
-				}
-			}
-			return true
-		})
-	}
-	var ws []wr
-	for w := range set {
-		ws = append(ws, w)
-	}
-	sort.Slice(ws, func(i, j int) bool {
-		a, b := ws[i], ws[j]
-		if a.fn != b.fn {
-			return a.fn < b.fn
-		}
-		if a.owner != b.owner {
-			return a.owner < b.owner
-		}
-		return a.field < b.field
-	})
-	for _, w := range ws {
-		writes = append(writes, fmt.Sprintf("  (%s, %s, %s)", lkStr(w.fn), lkStr(w.owner), lkStr(w.field)))
-	}
-	// package-level variables
-	names := p.pkg.Scope().Names()
-	for _, n := range names {
-		v, ok := p.pkg.Scope().Lookup(n).(*types.Var)
-		if !ok {
-			continue
-		}
-		var wl []string
-		for fn := range varWriters[prefix+n] {
-			wl = append(wl, lkStr(fn))
-		}
-		sort.Strings(wl)
-		qual := func(other *types.Package) string {
-			if other == p.pkg {
-				return ""
-			}
-			return other.Name()
-		}
-		vars = append(vars, fmt.Sprintf("  (%s, %s, [%s])", lkStr(prefix+n), lkStr(types.TypeString(v.Type(), qual)), strings.Join(wl, "; ")))
-	}
-	return writes, vars, nil
 }
